@@ -119,7 +119,9 @@ func (state *IntraAnalysisState) DoExtract(x *ssa.Extract) {
 	// how extract interacts with them.
 	isUntrackedTuple := false
 	switch x.Tuple.(type) {
-	case *ssa.Next, *ssa.Select, *ssa.Lookup:
+	case *ssa.Next, *ssa.Select, *ssa.Lookup, *ssa.TypeAssert, *ssa.UnOp:
+		// the (value, ok) tuples of comma-ok lookups, type assertions and receives are not call results: the
+		// tuple index of a call-return mark says nothing about which of their components it reaches
 		isUntrackedTuple = true
 	}
 	if isUntrackedTuple {
